@@ -4,8 +4,12 @@ LEVEL = "model_checking"
 BUCKETS = [1e-6, 1e-4, 1e-2, 1.0, 100.0]
 
 
-def build(b):
-    calls = [{"op": "histogram", "as": "H", "opts": {"name": "h", "help": "h", "buckets": BUCKETS}}, {"op": "local", "of": "H", "as": "L"}]
+# second layout: every measured duration lies above the largest finite bound (only the implicit +Inf bucket counts it)
+TINY = [1e-300, 1e-200]
+
+
+def build(b, buckets=BUCKETS):
+    calls = [{"op": "histogram", "as": "H", "opts": {"name": "h", "help": "h", "buckets": buckets}}, {"op": "local", "of": "H", "as": "L"}]
     marks = []
     for e in b:
         op = e["op"]
@@ -36,7 +40,7 @@ def run(ctx):
         bs = random.Random(ctx.seed).sample(bs, 150000)
     jobs, marks = [], []
     for i, b in enumerate(bs):
-        calls, m = build(b)
+        calls, m = build(b, BUCKETS if i % 2 == 0 else TINY)
         jobs.append({"id": i, "calls": calls}); marks.append(m)
     res = run_api(ctx, exe, jobs, "timer", nproc=12)
     nok = 0
